@@ -174,8 +174,10 @@ def run(cx):
                  ("R04b", "the lexical error of an unmatched character names the current line"),
                  ("R04c", "an empty node has an empty span at the token under the cursor"),
                  ("R04d", "node spans: first child's start .. last child's end; leaves copy the token's span"),
-                 ("R04e", "the tokenizer and get_orig_text cut a str into lines with the same operation")):
+                 ("R04e", "the tokenizer and get_orig_text cut a str into lines with the same operation"),
+                 ("R04f", "the source text handed in (str or list of lines) is never modified")):
         cx.rule(r, t)
+    cx.guard(_r04f, cx, repo)
     tok = cx.func(REL, "_Tokenizer.tokenize", "R04a")
     parse = cx.func(REL, "LLParser.parse", "R04c")
     te_init = cx.func(REL, "TElement.__init__", "R04d")
@@ -350,3 +352,20 @@ def _block_stmts(node):
         if isinstance(lst, list) and any(x is st for x in lst):
             return lst
     return []
+
+
+def _r04f(cx, repo):
+    """Spans refer to the text the caller holds: get_orig_text and the tokenizer may receive the caller's own list of lines
+    (`lines = text`), so an in-place change of it (item assignment, del, +=, a mutator) makes later look-ups of other
+    elements cut the wrong characters."""
+    from sa.core import param_mutations
+    n = 0
+    for qual_, pname in (("TElement.get_orig_text", None), ("_Tokenizer.tokenize", None), ("LLParser.parse", None)):
+        f = cx.func(REL, qual_, "R04f")
+        p = params(f)[1]
+        muts = param_mutations(f, p)
+        n += 1
+        cx.ob("R04f", muts[0][0] if muts else f, not muts, f"{f.name}: the text argument `{p}` (and names bound to it) is only read" if not muts else
+              f"{f.name}: {muts[0][2]}, which may be the caller's own list of source lines `{p}`: the source text is changed, and get_orig_text of other elements on that line no longer returns their lexemes",
+              stmt=f"{f.name} text purity")
+    cx.at_least("R04f", "functions receiving the source text", n, 3)
